@@ -90,7 +90,7 @@ opentelemetry::nostd::shared_ptr<opentelemetry::logs::Logger> LoggerProvider::Ge
   for (auto &logger : loggers_)
   {
     auto &logger_lib = logger->GetInstrumentationScope();
-    if (logger->GetName() == logger_name &&
+    if (opentelemetry::nostd::string_view{logger->logger_name_} == logger_name &&
         logger_lib.equal(library_name, library_version, schema_url, &attributes))
     {
       return opentelemetry::nostd::shared_ptr<opentelemetry::logs::Logger>{logger};
